@@ -11,6 +11,7 @@ import (
 	"math/big"
 	"os"
 	"strconv"
+	"sync"
 )
 
 type Integer interface {
@@ -281,4 +282,43 @@ var stampCounter int64
 // neither a scheduling point nor a memory access seen by the race detector.
 func Stamp() int {
 	return int(atomicAdd(&stampCounter))
+}
+
+// ---------------------------------------------------------------------------
+// ghost state: observations shared between goroutines of a harness that are not part of the program under
+// test. Under the engine they are neither scheduling points nor visible to the race detector.
+
+var (
+	ghostMu  sync.Mutex
+	ghostMap = map[string]any{}
+)
+
+// GhostPut stores v under name.
+func GhostPut(name string, v any) {
+	ghostMu.Lock()
+	ghostMap[name] = v
+	ghostMu.Unlock()
+}
+
+// GhostGet returns the value stored under name (nil if none).
+func GhostGet(name string) any {
+	ghostMu.Lock()
+	defer ghostMu.Unlock()
+	return ghostMap[name]
+}
+
+// GhostInt returns the int stored under name (0 if none).
+func GhostInt(name string) int {
+	v, _ := GhostGet(name).(int)
+	return v
+}
+
+// GhostAdd adds d to the int stored under name and returns the new value.
+func GhostAdd(name string, d int) int {
+	ghostMu.Lock()
+	defer ghostMu.Unlock()
+	v, _ := ghostMap[name].(int)
+	v += d
+	ghostMap[name] = v
+	return v
 }
